@@ -55,6 +55,29 @@ def execute(p):
     raise ValueError(t)
 
 
+def _twin(p):
+    """The program with every integer constant replaced by the equal float and every
+    integral float by the equal integer; None if it has no such constant."""
+    changed = []
+
+    def go(j):
+        if isinstance(j, list):
+            return [go(i) for i in j]
+        if not isinstance(j, dict):
+            return j
+        if j.get("t") == "Const" and isinstance(j.get("v"), dict):
+            v = j["v"]
+            if v.get("k") == "int":
+                changed.append(1)
+                return {**j, "v": {"k": "flt", "n": v["n"], "d": 1}}
+            if v.get("k") == "flt" and v.get("d") == 1:
+                changed.append(1)
+                return {**j, "v": {"k": "int", "n": v["n"]}}
+        return {k: go(x) for k, x in j.items()}
+    q = go(p)
+    return q if changed else None
+
+
 _ENVS = None
 
 
@@ -71,6 +94,12 @@ def drive_case(case, extra):
     by the model - both must be the plain Python value of the program)."""
     from pymbolic.mapper.evaluator import EvaluationMapper
     from pymbolic.primitives import Expression
+    # history: the same program over numbers that are == but of the other type (2 <-> 2.0) is run
+    # first in this process and thrown away - the tree built afterwards depends on the
+    # computation written, not on what was built before it (C03_Hist.tla)
+    twin = _twin(case["p"])
+    if twin is not None:
+        ser.obj_to_json(lambda: execute(twin))
     built = []
     res = ser.obj_to_json(lambda: built.append(execute(case["p"])) or built[0])
     ev = []
@@ -116,6 +145,16 @@ def run(tier, seed, out):
     gen = kit.run_tlc("C03_Gen", f"C03_Gen_{tier}")
     kit.require_clean(gen, "C03 generation / model check")
     out.add_tlc(gen)
+    # S-layer: operator applications as a history in one process (C03_Hist): history-free
+    # without state and with a table keyed by the trees themselves; refuted for a table keyed by ==
+    for cfg in ("C03_Hist", "C03_Hist_strict"):
+        h = kit.run_tlc("C03_Hist", cfg, workers=2, coverage=False)
+        kit.require_clean(h, cfg)
+        out.add_tlc(h)
+    hneg = kit.run_tlc("C03_Hist", "C03_Hist_neg", workers=2, coverage=False)
+    if "HistoryFree" not in hneg.invariant_violated:
+        raise kit.MachineryError("negative control C03_Hist_neg: TLC did not report HistoryFree violated")
+    out.extra["negative_controls"] = {"C03_Hist_neg": "HistoryFree"}
     printed = gen.printed()
     cases = [p for p in printed if "p" in p]
     envs = [p["envs"] for p in printed if "envs" in p]
